@@ -31,6 +31,9 @@ def programs(out, tier, prop, versions, per_version, rng, want_generated=True, l
             out.add('states', r3.distinct)
             out.add('transitions', r3.generated)
             lits = ['x = %s\n' % s for s in nums if s] + ['x = %s\n' % s for s in strs if s] + shapes
+            for v in versions:
+                for t in inputs.escape_literals():
+                    progs[v].append((t, 'escape-literals'))
             if tier == 'quick':
                 longer = [''.join(rng.choice(inputs.NUM_ALPHABET) for _ in range(rng.randint(5, 8))) for _ in range(20000)]
                 lits += ['x = %s\n' % s for s in longer]
